@@ -1,0 +1,109 @@
+//! Read-only verification hooks (cargo feature `verif-hooks`).
+//!
+//! A plain-data dump of one host's socket table: the three table
+//! counts and, per socket, the TCB scalars. Nothing here mutates the
+//! kernel; it exists so that leaks of `Closed` sockets (which `netstat`
+//! hides) and retransmit counters are observable from a harness.
+
+use std::net::SocketAddr;
+
+use crate::kernel::socket::TcpState;
+use crate::kernel::Kernel;
+
+#[derive(Debug, Clone, PartialEq, Eq)]
+pub struct VerifHost {
+    pub sockets: usize,
+    pub bindings: usize,
+    pub connections: usize,
+    pub socks: Vec<VerifSock>,
+}
+
+#[derive(Debug, Clone, PartialEq, Eq)]
+pub struct VerifSock {
+    pub fd: u64,
+    pub local: Option<SocketAddr>,
+    pub fd_closed: bool,
+    /// `Some((backlog, ready fds))` for a listener.
+    pub listen: Option<(usize, Vec<u64>)>,
+    pub tcb: Option<VerifTcb>,
+}
+
+#[derive(Debug, Clone, PartialEq, Eq)]
+pub struct VerifTcb {
+    pub state: &'static str,
+    pub peer: SocketAddr,
+    pub snd_una: u32,
+    pub snd_nxt: u32,
+    pub snd_wnd: u16,
+    pub rcv_nxt: u32,
+    pub send_buf_len: usize,
+    pub recv_buf_len: usize,
+    pub wr_closed: bool,
+    pub peer_fin: bool,
+    pub fin_seq: Option<u32>,
+    pub reset: bool,
+    pub timed_out: bool,
+    pub egress_since_ack: u32,
+    pub retx_attempts: u32,
+}
+
+fn state_name(s: TcpState) -> &'static str {
+    match s {
+        TcpState::SynSent => "SynSent",
+        TcpState::SynReceived => "SynReceived",
+        TcpState::Established => "Established",
+        TcpState::FinWait1 => "FinWait1",
+        TcpState::FinWait2 => "FinWait2",
+        TcpState::CloseWait => "CloseWait",
+        TcpState::LastAck => "LastAck",
+        TcpState::Closing => "Closing",
+        TcpState::Closed => "Closed",
+    }
+}
+
+impl Kernel {
+    pub fn verif_dump(&self) -> VerifHost {
+        let (sockets, bindings, connections) = self.sockets.verif_counts();
+        let socks = self
+            .sockets
+            .iter()
+            .map(|(fd, s)| VerifSock {
+                fd: fd.verif_raw(),
+                local: s
+                    .bound
+                    .as_ref()
+                    .map(|b| SocketAddr::new(b.local_addr, b.local_port)),
+                fd_closed: s.fd_closed,
+                listen: s.listen.as_ref().map(|l| {
+                    (
+                        l.backlog,
+                        l.ready.iter().map(|f| f.verif_raw()).collect::<Vec<_>>(),
+                    )
+                }),
+                tcb: s.tcb.as_ref().map(|t| VerifTcb {
+                    state: state_name(t.state),
+                    peer: t.peer,
+                    snd_una: t.snd_una,
+                    snd_nxt: t.snd_nxt,
+                    snd_wnd: t.snd_wnd,
+                    rcv_nxt: t.rcv_nxt,
+                    send_buf_len: t.send_buf.len(),
+                    recv_buf_len: t.recv_buf.len(),
+                    wr_closed: t.wr_closed,
+                    peer_fin: t.peer_fin,
+                    fin_seq: t.fin_seq,
+                    reset: t.reset,
+                    timed_out: t.timed_out,
+                    egress_since_ack: t.egress_since_ack,
+                    retx_attempts: t.retx_attempts,
+                }),
+            })
+            .collect();
+        VerifHost {
+            sockets,
+            bindings,
+            connections,
+            socks,
+        }
+    }
+}
